@@ -1,10 +1,10 @@
 CONSTANTS
-  Routes = {"/a", "/b", "/c"}
+  Routes = {"/a", "/b"}
   Hosts = {0, 1}
-  MCSizes = {2, 4}
+  MCSizes = {1, 2}
   MCIds = {1, 2}
   Payloads <- MCPayloads
-  Limit = 4
+  Limit = 2
   TimeLimit = 60
   Ticks = {30, 31}
   Dev = {}
